@@ -17,7 +17,11 @@ EXTENDS EggAbs, Json, IOUtils
 Rec == ndJsonDeserialize(IOEnv.TRACE)
 
 VARIABLES l,
-          tainted   \* a rule run has failed earlier in this session (see Judge)
+          tainted,  \* a rule run has failed earlier in this session (see Judge)
+          declf,    \* indices of the functions of prog.funcs declared right now
+          cur,      \* number of the e-graph (slot) the EggAbs variables describe
+          other,    \* the other slot (after a clone): [rows, active, stack, declf, tainted] or [none |-> TRUE]
+          cmpst     \* compare databases (FALSE for encodings whose tables are not the user's tables)
 
 \* ---------------------------------------------------------------- AbsOf
 CanonFn(ev) == [p \in {ev.canon[i] : i \in 1 .. Len(ev.canon)} |-> p[2]]
@@ -47,16 +51,33 @@ RawIdsCanonical(ev) == \A i \in 1 .. Len(ev.canon) : ev.canon[i][1] = ev.canon[i
 RawCongruenceClosed(ev) == Functional(RawRows(ev))
 
 \* ---------------------------------------------------------------- steps
-Expect(c) ==
-  IF c.k = "ins" THEN CmdIns(rows, c)
-  ELSE IF c.k = "union" THEN CmdUnion(rows, c)
-  ELSE IF c.k = "set" THEN CmdSet(rows, c)
-  ELSE IF c.k = "subsume" THEN CmdSubsume(rows, c)
-  ELSE IF c.k = "delete" THEN CmdDelete(rows, c)
-  ELSE IF c.k = "run" THEN CmdRun(rows, c, active)
-  ELSE IF c.k = "check" THEN CmdCheck(rows, c)
-  ELSE IF c.k = "pop" THEN [rows |-> IF Len(stack) > 0 THEN stack[Len(stack)][1] ELSE rows, ok |-> Len(stack) > 0]
-  ELSE [rows |-> rows, ok |-> (c.k # "bad")]           \* rule, push, bad, noop
+\* w: the e-graph the command is issued on: [rows, active, stack, declf, tainted]
+Me == [rows |-> rows, active |-> active, stack |-> stack, declf |-> declf, tainted |-> tainted]
+
+Expect(w, c) ==
+  IF c.k = "ins" THEN CmdIns(w.rows, c)
+  ELSE IF c.k = "union" THEN CmdUnion(w.rows, c)
+  ELSE IF c.k = "set" THEN CmdSet(w.rows, c)
+  ELSE IF c.k = "subsume" THEN CmdSubsume(w.rows, c)
+  ELSE IF c.k = "delete" THEN CmdDelete(w.rows, c)
+  ELSE IF c.k = "run" THEN CmdRun(w.rows, c, w.active)
+  ELSE IF c.k = "check" THEN CmdCheck(w.rows, c)
+  ELSE IF c.k = "pop" THEN [rows |-> IF Len(w.stack) > 0 THEN w.stack[Len(w.stack)].rows ELSE w.rows, ok |-> Len(w.stack) > 0]
+  ELSE IF c.k = "rule" THEN [rows |-> w.rows, ok |-> c.r \notin w.active]
+  ELSE IF c.k = "fdecl" THEN [rows |-> w.rows, ok |-> c.f \notin w.declf]
+  ELSE IF c.k = "probe" THEN [rows |-> w.rows, ok |-> c.ok = 1]
+  ELSE [rows |-> w.rows, ok |-> (c.k # "bad")]           \* push, bad, noop
+
+\* the e-graph after the command (the observed database is adopted: re-synchronisation)
+After(w, c, ev, obs) ==
+  IF ev.res # "ok" THEN [w EXCEPT !.rows = obs, !.tainted = w.tainted \/ c.k = "run"]
+  ELSE IF c.k = "pop" /\ Len(w.stack) > 0 THEN
+    LET top == w.stack[Len(w.stack)] IN
+    [rows |-> obs, active |-> top.active, stack |-> SubSeq(w.stack, 1, Len(w.stack) - 1), declf |-> top.declf, tainted |-> top.tainted]
+  ELSE IF c.k = "push" THEN [w EXCEPT !.rows = obs, !.stack = Append(w.stack, [rows |-> w.rows, active |-> w.active, declf |-> w.declf, tainted |-> w.tainted])]
+  ELSE IF c.k = "rule" THEN [w EXCEPT !.rows = obs, !.active = w.active \cup {c.r}]
+  ELSE IF c.k = "fdecl" THEN [w EXCEPT !.rows = obs, !.declf = w.declf \cup {c.f}]
+  ELSE [w EXCEPT !.rows = obs]
 
 Bad(code) == PrintT(<<"BAD", l, code>>)
 
@@ -67,46 +88,62 @@ Bad(code) == PrintT(<<"BAD", l, code>>)
 \* applied: from then on (`tainted`) the outcome of later RUN commands is only
 \* required to be consistent (raw invariants, no panic), not equal to the naive
 \* re-evaluation; all other commands are still checked exactly.
-Exact(ev) == ~(tainted /\ ev.c.k = "run")
-Judge(ev, exp, obs) ==
+Judge(w, ev, exp, obs) ==
+  LET exact == ~(w.tainted /\ ev.c.k = "run") IN
   /\ (ev.res = "panic") => Bad("panicked")
-  /\ (~RawKeysUnique(ev)) => Bad("raw-duplicate-key")
-  /\ (~RawIdsCanonical(ev)) => Bad("raw-noncanonical-id")
-  /\ (RawIdsCanonical(ev) /\ ~RawCongruenceClosed(ev)) => Bad("raw-congruence-open")
-  /\ (Exact(ev) /\ exp.ok /\ ev.res = "err") => Bad(IF ev.c.k = "check" THEN "check-failed-but-holds" ELSE "unexpected-error")
-  /\ (Exact(ev) /\ ~exp.ok /\ ev.res = "ok") => Bad(IF ev.c.k = "check" THEN "check-passed-but-fails" ELSE "missing-error")
-  /\ (Exact(ev) /\ exp.ok /\ ev.res = "ok" /\ ~IsWild(exp.rows) /\ obs # exp.rows) =>
+  /\ (cmpst /\ ~RawKeysUnique(ev)) => Bad("raw-duplicate-key")
+  /\ (cmpst /\ ~RawIdsCanonical(ev)) => Bad("raw-noncanonical-id")
+  /\ (cmpst /\ RawIdsCanonical(ev) /\ ~RawCongruenceClosed(ev)) => Bad("raw-congruence-open")
+  /\ (exact /\ exp.ok /\ ev.res = "err") => Bad(IF ev.c.k = "check" THEN "check-failed-but-holds" ELSE "unexpected-error")
+  /\ (exact /\ ~exp.ok /\ ev.res = "ok") => Bad(IF ev.c.k = "check" THEN "check-passed-but-fails" ELSE "missing-error")
+  /\ (cmpst /\ exact /\ exp.ok /\ ev.res = "ok" /\ ~IsWild(exp.rows) /\ obs # exp.rows) =>
         (Bad("state-mismatch") /\ PrintT(<<"DIFF", l, ToJson([missing |-> exp.rows \ obs, extra |-> obs \ exp.rows])>>))
-  /\ (~exp.ok /\ ev.c.k \in {"check", "bad"} /\ obs # rows) => Bad("state-changed-by-rejected-command")
-  /\ (Exact(ev) /\ ev.res = "ok" /\ ev.c.k = "run" /\ Has(ev, "upd") /\ ev.upd # (IF exp.upd THEN 1 ELSE 0) /\ exp.ok) => Bad("updated-flag")
+  /\ (cmpst /\ ~exp.ok /\ ev.c.k \in {"check", "bad", "probe", "rule", "fdecl", "pop"} /\ obs # w.rows) => Bad("state-changed-by-rejected-command")
+  /\ (cmpst /\ exact /\ ev.res = "ok" /\ ev.c.k = "run" /\ Has(ev, "upd") /\ exp.ok /\ ev.upd # (IF exp.upd THEN 1 ELSE 0)) => Bad("updated-flag")
+
+NoOther == [none |-> TRUE]
 
 TDecl ==
   /\ l <= Len(Rec) /\ Rec[l].e = "decl" /\ l' = l + 1
   /\ prog' = Rec[l].prog
   /\ active' = {Rec[l].active[i] : i \in 1 .. Len(Rec[l].active)}
-  /\ rows' = {} /\ stack' = <<>> /\ res' = "ok" /\ tainted' = FALSE
+  /\ declf' = (IF Has(Rec[l], "declared") THEN {Rec[l].declared[i] : i \in 1 .. Len(Rec[l].declared)}
+               ELSE 1 .. Len(Rec[l].prog.funcs))
+  /\ cmpst' = (IF Has(Rec[l], "cmp") THEN Rec[l].cmp = 1 ELSE TRUE)
+  /\ rows' = {} /\ stack' = <<>> /\ res' = "ok" /\ tainted' = FALSE /\ cur' = 0 /\ other' = NoOther
+
+\* the harness cloned the current e-graph into the other slot
+TClone ==
+  /\ l <= Len(Rec) /\ Rec[l].e = "clone" /\ l' = l + 1
+  /\ other' = Me
+  /\ UNCHANGED <<vars, tainted, declf, cur, cmpst>>
 
 TCmd ==
   /\ l <= Len(Rec) /\ Rec[l].e = "cmd" /\ l' = l + 1
   /\ LET ev == Rec[l]
          c == ev.c
-         exp == Expect(c)
-         obs == AbsOf(ev)
-     IN /\ Judge(ev, exp, obs)
-        /\ res' = ev.res
-        /\ prog' = prog
-        /\ tainted' = (tainted \/ (c.k = "run" /\ ev.res # "ok"))
-        /\ IF c.k = "pop" /\ ev.res = "ok" /\ Len(stack) > 0
-           THEN /\ rows' = obs
-                /\ active' = stack[Len(stack)][2]
-                /\ stack' = SubSeq(stack, 1, Len(stack) - 1)
-           ELSE /\ rows' = obs                          \* re-synchronise on the observation
-                /\ active' = IF c.k = "rule" /\ ev.res = "ok" THEN active \cup {c.r} ELSE active
-                /\ stack' = IF c.k = "push" /\ ev.res = "ok" THEN Append(stack, <<rows, active>>) ELSE stack
+         slot == IF Has(ev, "slot") THEN ev.slot ELSE cur
+         w == IF slot = cur THEN Me ELSE other           \* the e-graph this command runs on
+         idle == IF slot = cur THEN other ELSE Me          \* the one that must not notice
+         exp == Expect(w, c)
+         obs == IF cmpst THEN AbsOf(ev) ELSE exp.rows
+         w2 == After(w, c, ev, obs)
+     IN /\ Judge(w, ev, exp, obs)
+        /\ (cmpst /\ Has(ev, "otabs") /\ ~Has(idle, "none")
+              /\ Canonize(RawRows([tabs |-> ev.otabs, canon |-> ev.ocanon])) # idle.rows) => Bad("clone-interference")
+        /\ res' = ev.res /\ prog' = prog /\ cmpst' = cmpst /\ cur' = slot /\ other' = idle
+        /\ rows' = w2.rows /\ active' = w2.active /\ stack' = w2.stack /\ declf' = w2.declf /\ tainted' = w2.tainted
+
+\* the harness could not dump the state after a command (the dump itself panicked)
+TAbort ==
+  /\ l <= Len(Rec) /\ Rec[l].e = "abort" /\ l' = l + 1
+  /\ Bad("state-unreadable-after-command")
+  /\ UNCHANGED <<vars, tainted, declf, cur, other, cmpst>>
 
 TraceInit == /\ l = 1 /\ prog = [funcs |-> <<>>, rules |-> <<>>, rsets |-> <<>>]
              /\ rows = {} /\ active = {} /\ stack = <<>> /\ res = "ok" /\ tainted = FALSE
+             /\ declf = {} /\ cur = 0 /\ other = NoOther /\ cmpst = TRUE
 
-TraceNext == TDecl \/ TCmd
-TraceSpec == TraceInit /\ [][TraceNext]_<<vars, l, tainted>>
+TraceNext == TDecl \/ TCmd \/ TClone \/ TAbort
+TraceSpec == TraceInit /\ [][TraceNext]_<<vars, l, tainted, declf, cur, other, cmpst>>
 =============================================================================
